@@ -44,6 +44,42 @@ def first_acceptable(mods, pts, t, dname, cname, oname, cache):
     return n, chain[n]
 
 
+def _cost_model_check(ctx, mods, pts, sk, cname):
+    """The global cost that decided k* is cross-checked against its definition (C15's long-double model) on
+    well-conditioned curves, so that a broken cost primitive is observable here and not only in C15."""
+    from . import c15
+    P = np.asarray(pts)
+    if P.dtype.kind not in 'fiu' or len(P) > 400:
+        return
+    Pf = np.asarray(P, dtype=float)
+    well, rel_floor, abs_floor = c15.conditioning(Pf)
+    if not abs_floor:
+        return
+    v = install.orig('evaluation', 'compute_global_cost')(pts, sk, cost(mods, cname))
+    if v != v:
+        return
+    if cname in ('smape', 'rpd', 'rmspe'):
+        if not well:
+            ctx.ood('cost-model', 'ill-conditioned')
+            return
+        atol = rel_floor
+    elif cname == 'rmsle':
+        atol = abs_floor + 64 * c15.EPS
+    else:
+        y = Pf[:, 1]
+        tss = float(np.sum((y - y.mean()) ** 2))
+        if not tss > 1e6 * (c15.EPS * float(np.max(np.abs(y)))) ** 2 * len(y):
+            ctx.ood('cost-model', 'ill-conditioned')
+            return
+        atol = abs_floor ** 2 * len(y) / tss + 64 * c15.EPS + 8 * abs_floor * float(np.sqrt(len(y) / tss))
+    model = c15.model_cost(Pf, sk, cname)
+    tol = 1e-6 * abs(model) + atol + 1e-300
+    ctx.mx(f'cost_model_err_over_tol:{cname}', abs(float(v) - model) / tol)
+    ctx.check(abs(float(v) - model) <= tol, 'cost-model', f'primitive:global-cost-model:{cname}',
+              f'global {cname} cost of S_{len(sk)} evaluated as {float(v)!r}; the definition gives {model!r} (tol {tol:.3g})',
+              breakpoints=np.asarray(sk)[:40])
+
+
 def S(mods, pts, k, dname, oname, cache):
     chain = cache.setdefault((dname, oname), {})
     if k not in chain:
@@ -81,6 +117,7 @@ def setup(ctx, mods):
             return
         ks, want = first_acceptable(mods, pts, a['t'], a['distance'].value, a['cost'].value, a['order'].value, _cache_for(pts))
         STATE['kstar'] = ks
+        _cost_model_check(ctx, mods, pts, want, a['cost'].value)
         got = np.asarray(result[0])
         ctx.check(np.array_equal(got, want), 'grdp', 'first-acceptable:rdp.grdp',
                   f'grdp returned {len(got)} points, the first acceptable member of the fixed-size chain is S_{ks}',
